@@ -44,7 +44,7 @@ ASSUMPTIONS = [
 
 PARTIAL = ("codec theorems cover ParseTimeout (round trip of every binary64 value for which unparse returns; unparse returns for every non-negative value; refuted for a negative value on which it raises), "
            "ParseCSVInt, ParseErrorCodes (both signs), ParseCSVTraceEvent round trips; "
-           "ParseArrayLengths is modelled and tied by correspondence (its regexes are pinned literally) without a Coq round-trip theorem; "
+           "ParseArrayLengths: round trip proved for every dictionary parse can return, over the hand-written recogniser of the two regexes (pinned literally), which is tied to re.match/re.findall by correspondence only; "
            "whether 'nan' / 'inf' / a negative number is a well-formed timeout is not decided by the spec rendering (they are accepted by the code, observed and round-tripped)")
 
 
@@ -846,7 +846,7 @@ def gen_float_values(tier, r):
             1.0, 1.5, 0.5, 0.001, 0.0005, 0.0015, 1e-3 + 2 ** -62, 999.999, 1000.0, 59.999, 1e15, 1e16, 1e17, 2.0 ** 52, 2.0 ** 52 + 1, 2.0 ** 53, 2.0 ** 53 + 2,
             4503599627370495.5, 4503599627370.4955, 1e22, 1e23, 1.7976931348623157e305, 1.7976931348623158e305, -1.7976931348623157e305, -1.7976931348623158e305,
             -1e306, -2.5e307, 1e306, 0.1, 0.2, 0.3, 1 / 3, 2 / 3, 1e-5, 1e-4, 0.0001, 123456.789, 9007199254740993.0, 0.30000000000000004]
-    n1, n2, n3 = (220, 40, 16) if not big else (6000, 1500, 600)
+    n1, n2, n3 = (220, 30, 12) if not big else (6000, 1500, 600)
     for _ in range(n1):
         c = r.random()
         if c < 0.3:        # whole milliseconds and their float neighbours
@@ -1050,7 +1050,7 @@ def run(rep, tier):
     rep.coverage["runner_functions_checked"] = nfun
     rep.coverage["exhaustive"] = True
     rep.coverage["exhaustive_note"] = ("X-stack includes every stack of height <= %d over sources 1..5 x {set, unset} for one option and every stack of height <= %d over "
-                                       "sources x {solver set/unset} x {solver_command unset/''/'cmdA'}; X-codec includes every integer-ms timeout below the bound") % ((3, 2) if tier == "quick" else (5, 3))
+                                       "sources x {solver set/unset} x {solver_command unset/''/'cmdA'}; X-codec includes every integer-ms timeout below the bound; X-float includes the non-finite values, both zeros, the extreme subnormal/normal magnitudes and a searched set of values whose product with 1000 is whole only after rounding and does not divide back") % ((3, 2) if tier == "quick" else (5, 3))
 
     # ---------------- X-codec
     calls = []
@@ -1162,7 +1162,8 @@ def run(rep, tier):
             if num_differs(mt, o["toml"]):
                 fail("broken-tie", f"timeout: the float {o['repr']} as a number in halmos.toml: model {mt}, implementation {o['toml']}", case)
         # a number in the file is a number of milliseconds (spec), and x / 1000 rounded once (model)
-        if o["toml"].startswith("EXC") or (o["toml"] != "REJECT" and v == v and abs(v) != math.inf and not close(o["toml"], Fraction(v) / 1000)):
+        finite = v == v and abs(v) != math.inf
+        if o["toml"].startswith("EXC") or (o["toml"] == "REJECT" and finite and v >= 0) or (o["toml"] != "REJECT" and finite and not close(o["toml"], Fraction(v) / 1000)):
             fail("failing-input", f"timeout: the number {o['repr']} in halmos.toml is read as {o['toml']}, the documented meaning is {o['repr']} milliseconds", case, sig={"codec": "timeout", "defect": "toml-number"})
     for k, i in enumerate(int_cases):
         o = int_impl[k]
